@@ -123,6 +123,66 @@ def c16_diagonal(cfg):
     return rec
 
 
+def c16_diagonal_sparse(cfg):
+    """solve_sylvester_diagonal with scipy.sparse right-hand sides.  Sparse containers cannot carry symbolic payload, so this sub-claim
+    is an exhaustive concrete enumeration (declared as such): every sparsity pattern of the block x dyadic values, exact float arithmetic,
+    residual compared exactly; the symbolic claim about the formula itself is the numpy/sympy-branch jobs above."""
+    import itertools
+
+    from pymablock.block_diagonalization import solve_sylvester_diagonal
+    from scipy import sparse
+
+    rec = Rec("C16", cfg)
+    eigs = []
+    for blk in cfg["eigs"]:
+        if blk == "zero":
+            eigs.append(np.array(0))
+        else:
+            vals = [_num(v) for v in blk]
+            cplx = any(im != 0 for _, im in vals)
+            eigs.append(np.array([complex(float(re), float(im)) if cplx else float(re) for re, im in vals]))
+    solve = solve_sylvester_diagonal(tuple(eigs), atol=1e-12)
+    dims = [cfg["zero_dim"] if blk == "zero" else len(blk) for blk in cfg["eigs"]]
+    n_cases = 0
+    for (i, j) in cfg["indices"]:
+        n, m = dims[i], dims[j]
+        ea = np.zeros(n) if eigs[i].ndim == 0 else eigs[i]
+        eb = np.zeros(m) if eigs[j].ndim == 0 else eigs[j]
+        gap = ea.reshape(-1, 1) - eb.reshape(1, -1)
+        base = np.array([[(1 + a + 2 * b) * 0.5 + (0.25j * (a - b) if cfg.get("complex_rhs") else 0) for b in range(m)] for a in range(n)])
+        fails = []
+        for pattern in itertools.product([0, 1], repeat=n * m):
+            mask = np.array(pattern).reshape(n, m)
+            Yd = base * mask
+            for fmt in cfg.get("formats", ["csr", "csc", "coo"]):
+                Y = getattr(sparse, fmt + "_array")(Yd)
+                n_cases += 1
+                try:
+                    V = solve(Y, (i, j, 1))
+                except Exception as e:  # noqa: BLE001
+                    fails.append(dict(pattern=list(pattern), format=fmt, error=f"{type(e).__name__}: {e}"[:200]))
+                    break
+                Vd = V.toarray() if sparse.issparse(V) else np.asarray(V)
+                if Vd.shape != (n, m) or not np.all(np.isfinite(Vd)):
+                    fails.append(dict(pattern=list(pattern), format=fmt, error=f"shape {Vd.shape} / non-finite entries"))
+                    break
+                res = np.where(gap != 0, gap * Vd - Yd, Vd)
+                if np.any(res != 0):
+                    fails.append(dict(pattern=list(pattern), format=fmt, max_abs_residual=float(np.max(np.abs(res)))))
+                    break
+            if fails:
+                break
+        name = f"sparse residual block ({i},{j})"
+        if fails:
+            rec.direct_violation(name, "diagonal:sparse-rhs", dict(fails[0], index=[i, j], eigs=cfg["eigs"]), reproduced=True)
+        else:
+            rec.discharged(name + f": all {2 ** (n * m)} sparsity patterns x formats, exact residual 0", "confirmed")
+    rec.nontrivial = n_cases > 0
+    rec.guard("sparse-cases-exist", n_cases > 0)
+    rec.sample = {"config": cfg, "cases": n_cases}
+    return rec
+
+
 def _same_level(a, b):
     ca, cb = a.const_value(), b.const_value()
     if ca is not None and cb is not None:
@@ -149,6 +209,11 @@ def configs(tier):
         cfgs.append(dict(branch="sympy", eigs=[["E0", "E1", "E2"], ["E3", "E4", "E5"], ["E6"]], indices=[[a, b] for a in range(3) for b in range(3)]))
         cfgs.append(dict(branch="numpy", eigs=[["0", "4", "4"], ["2", "2"]], indices=[[a, b] for a in range(2) for b in range(2)]))
     jobs = [("vf.props.solvers", "c16_diagonal", c) for c in cfgs]
+    for c in cfgs:
+        if c["branch"] == "numpy" and all(blk == "zero" or len(blk) <= 3 for blk in c["eigs"]):
+            jobs.append(("vf.props.solvers", "c16_diagonal_sparse", dict(c, branch="sparse")))
+            if tier == "thorough":
+                jobs.append(("vf.props.solvers", "c16_diagonal_sparse", dict(c, branch="sparse", complex_rhs=True)))
     for name in ("boson_scalar", "boson_2x2", "boson_2blocks", "spin_boson", "fermions", "fermion_boson", "ladder", "boson_ladder", "spin_fermion"):
         jobs.append(("vf.props.secondq", "c16_2nd_quant", dict(set=name, _job="2nd_quant")))
     from .implicit import configs_c16_direct
